@@ -1226,3 +1226,7 @@ multi('C15', 'efficiency-product-by-reduce-spur-only', 'mutant', [_RED_IMP, (RUT
 multi('C15', 'efficiency-product-by-reduce-of-ratios', 'mutant', [_RED_IMP, (RUTIL, _EFF_OLD, """    powertrain_efficiency = reduce(imul, (element.master_gear_ratio for element in powertrain.elements
                                           if isinstance(element, SpurGear | WormGear)), 1)
 """, 0)], 'C15')
+for _pid in ('C19', 'C14'):
+    multi(_pid, 'duty-cycle-stored-before-abs-range-check', 'mutant', [
+        (DC, "        if not (-1 <= pwm <= 1):", "        self.__pwm = pwm\n\n        if not abs(self.__pwm) <= 1:"),
+        (DC, "            )\n\n        self.__pwm = pwm\n", "            )\n")], _pid)
